@@ -7,6 +7,7 @@ CONSTANTS
   DevOn = {}
   Salt = 0
   EmitCases = FALSE
+  FormsOn = {"plain"}
   Prune = TRUE
 INVARIANTS TypeOK StackDepth ListSortedDisjoint Refinement
 CHECK_DEADLOCK FALSE
